@@ -648,7 +648,10 @@ def body(ctx):
         icall = 0
         for cn, x in colsd.items():
             case = {"data": x if n <= 40 else x[:40] + ["..."], "n": n, "npoints_kde": npts}
-            got = [float(st.loc[r, cn]) for r in ("Q0", "Q25", "median", "Q75", "Q100")]
+            if st.shape[0] != 5:
+                ctx.finding("Violin.stats/shape", "Violin.stats does not have the five rows Q0, Q25, median, Q75, Q100", {**case, "rows": list(st.index)})
+                continue
+            got = [float(st[cn].iloc[r]) for r in range(5)]    # rows in the order Q0, Q25, median, Q75, Q100
             add(f"vstats {C.flist(x)}", "vstats", got, case)
             fin = [v for v in x if v == v and abs(v) != float("inf")]
             has_profile = not bool(kx[cn].isnull().all())
